@@ -58,7 +58,8 @@ type inItem struct {
 
 // Transport is an in-memory io.ReadWriteCloser for EndpointCustom.
 type Transport struct {
-	Name string
+	errWithData bool
+	Name        string
 
 	mu   sync.Mutex
 	cond *sync.Cond
@@ -135,9 +136,44 @@ func (t *Transport) Read(p []byte) (int, error) {
 	t.consumed += n
 	if len(it.data) == 0 {
 		t.in = t.in[1:]
+		if t.errWithData && len(t.in) > 0 && t.in[0].err != nil {
+			// the io.Reader contract allows the last bytes and the error in one call
+			err := t.in[0].err
+			t.in = t.in[1:]
+			t.session++
+			t.cond.Broadcast()
+			return n, err
+		}
 	}
 	t.cond.Broadcast()
 	return n, nil
+}
+
+// FeedThenError queues bytes and, right behind them, an error (both under one lock: a reader that has drained everything
+// before gets them in one Read when ErrWithData is on).
+func (t *Transport) FeedThenError(b []byte, err error) {
+	t.mu.Lock()
+	if !t.closed {
+		t.in = append(t.in, inItem{data: append([]byte(nil), b...)}, inItem{err: err})
+		t.bytesIn += len(b)
+		t.cond.Broadcast()
+	}
+	t.mu.Unlock()
+}
+
+// ErrsWithData reports whether ErrWithData is on.
+func (t *Transport) ErrsWithData() bool {
+	t.mu.Lock()
+	defer t.mu.Unlock()
+	return t.errWithData
+}
+
+// ErrWithData makes Read hand over the last queued bytes together with the error that follows them (n > 0, err != nil), as
+// the io.Reader contract allows, instead of in two calls.
+func (t *Transport) ErrWithData(b bool) {
+	t.mu.Lock()
+	t.errWithData = b
+	t.mu.Unlock()
 }
 
 // Pending returns the number of fed bytes not yet read by the library.
